@@ -127,6 +127,7 @@ class Engine:
         s.phivals = {}
         s.positive_roots = set()
         s.positive = set()      # atoms known >= 1 (addresses of allocas / globals)
+        s.nofacts = set()
         s.loopdef = set()       # atoms (prefixed SSA ids) defined inside a loop: facts about them are not kept
         s._live = {}
         s._useful = {}
@@ -500,7 +501,7 @@ class Engine:
             pred, x, y = t[1], t[2], t[3]
             pp = _plain(pred if val else NEG[pred])
             d = x - y
-            if any(_core(a) in s.loopdef for a in d.t):
+            if any(_core(a) in s.loopdef or _core(a) in s.nofacts for a in d.t):
                 return facts          # loop-variant value: no fact is kept (it would be stale in the next iteration anyway)
             new = []
             ne = facts.ne
@@ -618,7 +619,7 @@ class Engine:
                 if inloop:
                     s.loopdef.add(pre + i["id"])
                 elif not s.worth_facts(fn, i):
-                    s.loopdef.add(pre + i["id"])       # tested at most once: a fact about it can never decide a later branch
+                    s.nofacts.add(pre + i["id"])       # tested at most once: a fact about it can never decide a later branch
         def dead(a):
             return _core(a) in defined
         facts = st.facts.kill(dead) if (st.facts.ge or st.facts.ne or st.facts.cb) else st.facts
@@ -1148,6 +1149,8 @@ class Engine:
             if (x[1].is_const() or all(s.stable_atom(a) for a in x[1].t)) and \
                     (s.top_blocks <= s.BIG_FN or phi["id"] in s.relevant_ids(fr.fn)):
                 return x          # (in very large entry points only merges that can reach a result/handler/length stay precise)
+            if len(x[1].t) == 1 and x[1].c == 0 and list(x[1].t.values())[0] == 1 and s.top_blocks <= s.BIG_FN:
+                return x          # the phi merely forwards one opaque value: keep its identity (bounded by K_PHI)
             s.loopdef.add(vid)
             return I(Lin.atom(vid))
         if x[0] == "p":
